@@ -245,6 +245,78 @@ def run(prog, check):
                         and a.targets[0].value.id != varsname and isinstance(n.test.left, ast.Name) and \
                         unparse(a.targets[0].slice) == n.test.left.id:
                     zero_sets.add(a.targets[0].value.id)
+    from ..cfg import atomic_facts
+
+    def is_zero_membership(e, key):
+        """`key in <time-zero set>` / `key in <...>.InitialConditions` (possibly .keys())"""
+        if not (isinstance(e, ast.Compare) and len(e.ops) == 1 and isinstance(e.ops[0], ast.In) and
+                isinstance(e.left, ast.Name) and e.left.id == key):
+            return False
+        tgt = e.comparators[0]
+        if isinstance(tgt, ast.Call) and call_name(tgt) == 'keys' and isinstance(tgt.func, ast.Attribute):
+            tgt = tgt.func.value
+        # names bound to the time-zero set by plain copies
+        return (isinstance(tgt, ast.Name) and tgt.id in zero_alias) or (isinstance(tgt, ast.Attribute) and tgt.attr == 'InitialConditions')
+    zero_alias = set(zero_sets)
+    changed = True
+    while changed:
+        changed = False
+        for n in ast.walk(ic.node):
+            if isinstance(n, ast.Assign) and len(n.targets) == 1 and isinstance(n.targets[0], ast.Name) and isinstance(n.value, ast.Name):
+                a_, b_ = n.targets[0].id, n.value.id
+                if (a_ in zero_alias) != (b_ in zero_alias):
+                    zero_alias.update((a_, b_))
+                    changed = True
+
+    def list_aliases(name):
+        out = {name}
+        changed = True
+        while changed:
+            changed = False
+            for n in ast.walk(ic.node):
+                if isinstance(n, ast.Assign) and len(n.targets) == 1 and isinstance(n.targets[0], ast.Name) and isinstance(n.value, ast.Name):
+                    a_, b_ = n.targets[0].id, n.value.id
+                    if (a_ in out) != (b_ in out):
+                        out.update((a_, b_))
+                        changed = True
+        return out
+
+    def protected(node, key, depth=0):
+        """reaching `node` implies that `key` is not a variable with an initial condition / known time-zero value:
+        a branch outcome says so, or `key` ranges over a local list that is only filled under such an outcome"""
+        for test, outcome in g.conditions_at(node):
+            if outcome is False and isinstance(test, ast.BoolOp) and isinstance(test.op, ast.Or):
+                if any(is_zero_membership(v, key) for v in test.values):
+                    return 'not (%s)' % unparse(test)
+            for _, v, e in atomic_facts(test, outcome):
+                if v is False and is_zero_membership(e, key):
+                    return 'not (%s)' % unparse(e)
+        if depth > 3:
+            return None
+        for l in reversed([l for l in node.loops if isinstance(l, ast.For)]):
+            lvs = target_names(l.target)
+            if key in lvs and isinstance(l.iter, ast.Name):
+                pos = lvs.index(key)
+                names = list_aliases(l.iter.id)
+                fills = [c for c in ast.walk(ic.node) if isinstance(c, ast.Call) and call_name(c) == 'append' and
+                         isinstance(c.func, ast.Attribute) and isinstance(c.func.value, ast.Name) and c.func.value.id in names]
+                if not fills:
+                    return None
+                why = None
+                for c in fills:
+                    x = c.args[0] if c.args else None
+                    if isinstance(x, ast.Tuple) and pos < len(x.elts) and isinstance(x.elts[pos], ast.Name):
+                        src = x.elts[pos].id
+                    elif isinstance(x, ast.Name) and len(lvs) == 1:
+                        src = x.id
+                    else:
+                        return None
+                    from ..loader import stmt_of
+                    why = protected(g.node_of(stmt_of(c)), src, depth + 1)
+                    if why is None:
+                        return None
+                return why
+        return None
     for node in g.stmt_nodes():
         if node.kind != 'stmt' or not isinstance(node.ast, ast.Assign):
             continue
@@ -253,27 +325,17 @@ def run(prog, check):
             continue
         loops = [l for l in node.loops if isinstance(l, ast.For)]
         part = iter_partition(loops[-1]) if loops else None
-        if part not in ('Endogenous', 'Decoration'):
+        if part == 'Exogenous':
+            continue        # the exogenous pass defines the whole path
+        if loops and isinstance(loops[-1].iter, ast.Attribute) and loops[-1].iter.attr == 'VariableList':
+            continue        # the initial-condition pass itself
+        if not isinstance(t.slice, ast.Name):
             continue
         r4 += 1
-        loop = loops[-1]
-        lv = target_names(loop.target)[0]
-        hdr = [x for x in g.nodes if x.kind == 'for' and x.stmt is loop][0]
-        ok = False
-        guard_txt = ''
-        for tnode in g.nodes:
-            if tnode.kind != 'test' or loop not in tnode.loops:
-                continue
-            if not g.dominates(tnode, node):
-                continue
-            if not _membership_guard(tnode.ast, lv, zero_sets):
-                continue
-            tgt = [b for b, l in g.succ[tnode.id] if l is True]
-            if tgt and node.id not in g.reach(tgt, avoid={hdr.id}, include_src=True):
-                ok = True
-                guard_txt = unparse(tnode.ast)
-        check.ob('C10.R4', '%s::k0-store-guarded(%s pass)' % (ic.key, part), ok, '%s:%d' % (ic.module.rel, node.line),
-                 ('k=0 store guarded by `%s`' % guard_txt) if ok else
+        why = protected(node, t.slice.id)
+        ok = why is not None
+        check.ob('C10.R4', '%s::k0-store-guarded(%s pass)' % (ic.key, part or 'derived'), ok, '%s:%d' % (ic.module.rel, node.line),
+                 ('k=0 store guarded by `%s`' % why) if ok else
                  'k=0 value of a variable with an initial condition can be overwritten by constant propagation',
                  'initial condition on a constant endogenous / decorative variable')
     # pass 1 records every IC variable in the time-zero set (so that a guard on that set protects it)
